@@ -449,6 +449,9 @@ func (e *Exec) invoke(st *State, f *Frame, fv FuncV, args []Value, retTo ssa.Val
 		if _, pushed := r.(pushedFrame); pushed {
 			return
 		}
+		if _, crashed := r.(crashedFrame); crashed {
+			return
+		}
 		if retTo != nil {
 			f.env[retTo] = r
 		}
@@ -495,10 +498,11 @@ func (e *Exec) callDeferred(st *State, d deferred) {
 		}
 	}
 	if h, ok := e.lookupIntrinsic(name, d.fv); ok {
-		if _, pushed := h(e, st, d.fv, d.args, nil).(pushedFrame); pushed {
+		r := h(e, st, d.fv, d.args, nil)
+		if _, pushed := r.(pushedFrame); pushed {
 			st.top().inDefer = true
 		}
-		return // stay on RunDefers
+		return // stay on RunDefers (or, after a crash point, wherever the handler left the stack)
 	}
 	_ = f
 	e.pushCall(st, d.fv, d.args, nil)
